@@ -34,12 +34,22 @@ type Explorer struct {
 type Factory func() (bodies []func(), after func(res vhook.Result, tr vhook.Trace))
 
 // Explore runs the DFS. It returns an error for machinery problems (replay divergence).
+//
+// Sharding (Shards > 1): nodes reached by fewer than two alternatives (the root and its children)
+// are executed by EVERY shard, in the same order, because their traces are needed to enumerate the
+// level-2 nodes; each of them is evaluated by exactly one shard (the root by shard 0, the k-th
+// child of the root by shard k mod Shards). The j-th level-2 node generated (a running count that
+// is identical in all shards) and everything below it belongs to shard j mod Shards. The union of
+// the evaluated executions over all shards is exactly the unsharded exploration.
 func (e *Explorer) Explore(mk Factory) error {
 	type node struct {
 		prefix []int
 		cost   int
+		depth  int // alternatives taken
+		owned  bool
 	}
-	stack := []node{{nil, 0}}
+	stack := []node{{nil, 0, 0, e.Shards <= 1 || e.Shard == 0}}
+	n1, n2 := 0, 0
 	for len(stack) > 0 {
 		nd := stack[len(stack)-1]
 		stack = stack[:len(stack)-1]
@@ -51,11 +61,6 @@ func (e *Explorer) Explore(mk Factory) error {
 		vhook.SetPrefix(nd.prefix)
 		res := vhook.RunRecorded(bodies)
 		tr := vhook.LastTrace()
-		e.Execs++
-		e.Points += int64(res.Points)
-		if len(tr.Choice) > e.MaxLen {
-			e.MaxLen = len(tr.Choice)
-		}
 		if tr.Diverged {
 			return fmt.Errorf("replay divergence at prefix %v (nondeterminism not owned by the scheduler)", nd.prefix)
 		}
@@ -67,18 +72,17 @@ func (e *Explorer) Explore(mk Factory) error {
 				return fmt.Errorf("replay divergence: choice %d", i)
 			}
 		}
-		isRoot := nd.prefix == nil
-		if isRoot && e.Shards > 1 && e.Shard != 0 {
-			e.Execs-- // evaluated and counted by shard 0
-			e.Points -= int64(res.Points)
-			if e.OnSkip != nil {
-				e.OnSkip() // e.g. drain the race log of the skipped execution
+		if nd.owned {
+			e.Execs++
+			e.Points += int64(res.Points)
+			if len(tr.Choice) > e.MaxLen {
+				e.MaxLen = len(tr.Choice)
 			}
-		} else {
 			after(res, tr)
+		} else if e.OnSkip != nil {
+			e.OnSkip() // e.g. drain the race log of an execution another shard evaluates
 		}
 		// Children, pushed in reverse so that the DFS visits low alternatives first.
-		child := 0
 		for i := len(tr.Choice) - 1; i >= len(nd.prefix); i-- {
 			for alt := tr.N[i] - 1; alt >= 1; alt-- {
 				c := nd.cost
@@ -88,14 +92,24 @@ func (e *Explorer) Explore(mk Factory) error {
 				if e.Bound >= 0 && c > e.Bound {
 					continue
 				}
-				child++
-				if isRoot && e.Shards > 1 && child%e.Shards != e.Shard {
-					continue
+				owned := nd.owned
+				if e.Shards > 1 {
+					switch nd.depth {
+					case 0:
+						owned = n1%e.Shards == e.Shard
+						n1++
+					case 1:
+						owned = n2%e.Shards == e.Shard
+						n2++
+						if !owned {
+							continue // another shard explores this subtree
+						}
+					}
 				}
 				p := make([]int, i+1)
 				copy(p, tr.Choice[:i])
 				p[i] = alt
-				stack = append(stack, node{p, c})
+				stack = append(stack, node{p, c, nd.depth + 1, owned})
 			}
 		}
 	}
